@@ -416,7 +416,7 @@ def as_list(x):
 
 
 def merge_evidence(ctx, prop, tier, pdef, res, wall):
-    ev_dir = os.path.join(ctx.root, 'evidence')
+    ev_dir = os.environ.get('VF_EVIDENCE_DIR') or os.path.join(ctx.root, 'evidence')
     os.makedirs(ev_dir, exist_ok=True)
     evaluations = sum(f.get('evaluations', 0) for f in res['frags'])
     nontriv = sum(f.get('distinct_nontrivial', 0) for f in res['frags'])
